@@ -140,7 +140,7 @@ def run_shard(ctx):
             st.inc('texts_with_comment_markers_in_literals')
         for l in range(pr['layouts']):
             mix = rnd.choice([kinds_all, ['space', 'lf', 'tab', 'crlf', 'spaces', 'lflf', 'none'],
-                              ['space', 'block', 'block_nested', 'block_multiline', 'block_with_dashes'],
+                              ['space', 'block', 'block_nested', 'block_nested_multiline', 'block_multiline', 'block_with_dashes'],
                               ['space', 'line_comment_closed', 'line_comment_eol', 'comment_with_quote', 'lf']])
             r = lexer.relayout(text, rnd, mix, multiword_single_space=single_mw, toks=toks)
             if r is None:
@@ -187,6 +187,7 @@ def run_shard(ctx):
             for l in range(3):
                 mix = rnd.choice([['space', 'lf', 'lflf', 'crlf', 'spaces'],
                                   ['space', 'block_multiline', 'lf', 'block'],
+                                  ['space', 'block_nested_multiline', 'lf', 'block_nested', 'block_multiline'],
                                   ['space', 'line_comment_eol', 'lf', 'line_comment_closed']])
                 r = lexer.relayout(xerr, rnd, mix, multiword_single_space=True, toks=etoks)
                 if r is None:
